@@ -128,6 +128,15 @@ impl Asm {
     pub fn brn8(&mut self) {
         self.w(0x4100);
     }
+    /// CMP.L #imm,ERd
+    pub fn cmp_l_imm(&mut self, erd: u8, imm: u32) {
+        self.w(0x7a20 | (erd as u16 & 7));
+        self.l(imm);
+    }
+    /// BCC (carry clear: unsigned >=)
+    pub fn bcc8(&mut self, disp: i8) {
+        self.w(0x4400 | (disp as u8 as u16));
+    }
     pub fn bne8(&mut self, disp: i8) {
         self.w(0x4600 | (disp as u8) as u16);
     }
